@@ -12,7 +12,7 @@ RULE = ("generated families weighted to sequences (count const/field/expr/callab
         "before the data runs out, a false when, or a run-time selected reference; distinct = (source, raw, offset)")
 ASSUMPTIONS = ["reference parser bv/ir.py trusted", "fields selected at run time are restricted to those whose meaning does not depend on class options"]
 
-PROF = gen.profile(defaults=0.3, move=0.05, until_p=0.5, w={"int": 3, "data": 3, "bits": 1, "ref": 4, "refsel": 4, "seq": 7, "opt": 5, "em": 0})
+PROF = gen.profile(refsel_pktbias=0.3, defaults=0.3, move=0.05, until_p=0.5, w={"int": 3, "data": 3, "bits": 1, "ref": 4, "refsel": 4, "seq": 7, "opt": 5, "em": 0})
 
 
 def shards(tier):
@@ -52,7 +52,7 @@ def control_facts(fam, vals, acc=None):
 NONTRIVIAL = {"count0", "count>1", "until", "seq-when-false-or-empty", "opt-absent", "refsel-pkt", "refsel-field"}
 
 
-def check_input(ctx, live, fam, cg, label, raw, offset):
+def check_input(ctx, live, fam, cg, label, raw, offset, kept=None):
     ctx.ev()
     ctx.count("inputs", label)
     m = decl.model_parse(fam, raw, offset)
@@ -75,9 +75,12 @@ def check_input(ctx, live, fam, cg, label, raw, offset):
         ctx.violation(case(sig="rejected-but-reference-accepts", desc="unpack raised %s; reference values %r" % (
             str(r[1].original_error_message)[:200], vals), stack=r[1].fields_stack))
         return
-    d = decl.diff_trees(live.tree(r[1]), vals)
+    t0 = live.tree(r[1])
+    d = decl.diff_trees(t0, vals)
     if d:
         ctx.violation(case(sig="values-differ", desc=d, expected=vals))
+    elif kept is not None:
+        kept.append((r[1], t0, raw, offset))
     try:
         e2 = live.end_offset(raw, offset)
     except Exception as e:
@@ -99,10 +102,25 @@ def run_case(ctx, c):
     if live is None:
         return
     try:
+        kept = []
         for (label, raw, offset) in c["inputs"]:
-            check_input(ctx, live, fam, cg, label, raw, offset)
+            check_input(ctx, live, fam, cg, label, raw, offset, kept)
+        check_kept(ctx, live, fam, cg, kept, [[raw, offset] for (_, raw, offset) in c["inputs"]])
     finally:
         live.close()
+
+
+def check_kept(ctx, live, fam, cg, kept, seq):
+    """every nested packet is parsed into its own object: a packet returned by an earlier unpack() still reads the values it was
+    parsed with after the same classes have parsed other inputs (a selector returning pre-built packets only says which class to use)"""
+    for (pkt, t0, raw, offset) in kept:
+        d = decl.diff_trees(live.tree(pkt), t0)
+        if d:
+            ctx.violation(decl.describe_case(fam, cg, raw=raw, offset=offset, inputs_seq=seq, sig="earlier-result-changed-by-later-parse",
+                                             desc="the packet parsed from %r read %r, after parsing the later inputs of the case it differs: %s" % (raw, t0, d)))
+            return
+    if len(kept) > 1:
+        ctx.count("facts", "kept-results-rechecked")
 
 
 def run_shard(shard, ctx):
@@ -115,7 +133,13 @@ def replay(case, ctx):
     if live is None:
         return
     try:
-        check_input(ctx, live, fam, cg, case.get("label", "replay"), case["raw"], case.get("offset", 0))
+        if case.get("inputs_seq"):
+            kept = []
+            for raw, offset in case["inputs_seq"]:
+                check_input(ctx, live, fam, cg, "replay", raw, offset, kept)
+            check_kept(ctx, live, fam, cg, kept, case["inputs_seq"])
+        else:
+            check_input(ctx, live, fam, cg, case.get("label", "replay"), case["raw"], case.get("offset", 0))
         ctx.nt(("replay", live.src, case["raw"]))
     finally:
         live.close()
